@@ -166,6 +166,23 @@ def isPermB (l nodes : List Nat) : Bool :=
 every order `topSortDFS` returns) -/
 def possibleOrder (g : Graph) (l : List Nat) : Bool := isPermB l g.allNodes && respectsB g l
 
+-- ---------------------------------------------------------------- the property's relation between two transactions
+
+/-- `v` spends an output of `u` -/
+def tokDep (u v : Tx) : Bool := v.ins.any (fun r => r.tx == u.id)
+
+/-- `v` read a key version written by `u` -/
+def keyDep (u v : Tx) : Bool :=
+  v.kin.any (fun ki => match ki.ver with | some w => w.1 == u.id | none => false)
+
+/-- `u` only read `key@version`, `v` read the same version and overwrites the key -/
+def antiDep (u v : Tx) : Bool :=
+  u.id != v.id && u.kin.any (fun pk => !writesKey u pk.key &&
+    v.kin.any (fun ck => ck.key == pk.key && ck.ver == pk.ver && writesKey v ck.key))
+
+/-- `u` must precede `v` -/
+def edge (u v : Tx) : Bool := tokDep u v || keyDep u v || antiDep u v
+
 -- ---------------------------------------------------------------- admission of a sequence
 
 /-- a replica admits the transactions one by one on the evolving state -/
